@@ -22,8 +22,8 @@ prop("C01", "other",
      [COMPOSITION], assumptions=TRUST)
 prop("C03", "other",
      ["CW-SITES", "OWN-BALANCE", "OWN-PRIMITIVES", "CW-WEAK-PROTOCOL", "CW-DESTRUCT-ORDER", "CW-SPLIT-INC-PROTECTED",
-      "CW-DEFERRED-ONLY"],
-     [COMPOSITION], assumptions=TRUST)
+      "CW-DEFERRED-ONLY", "TY-SIG"],
+     [COMPOSITION], witnesses=["TY-SNAPSHOT-GUARD", "TY-REACTIVATE-MUT"], assumptions=TRUST)
 prop("C04", "other",
      ["CW-SITES", "CW-DESTRUCT-ONCE", "CW-DESTRUCT-ORDER", "CW-ZERO-DEFERS", "CW-ATTEMPT-RECHECK", "CW-DEC-NONZERO",
       "OWN-BALANCE", "CW-WEAK-PROTOCOL", "CW-ALLOC-RANGE", "CW-CASCADE-DECISION"],
@@ -56,6 +56,7 @@ register("EBR-DEFERRED-INLINE", rules_ebr.rule_deferred_inline)
 register("EBR-TLS", rules_ebr.rule_tls)
 register("EBR-LIVE-PRECOND", rules_ebr.rule_live_precond)
 register("EBR-FLUSH-SCHEDULES", rules_ebr.rule_flush_schedules)
+register("EBR-PIN-PROGRESS", rules_ebr.rule_pin_progress)
 register("EBR-CELL-RMW", rules_ebr.rule_cell_rmw)
 register("EBR-UNWIND-RESTORE", rules_ebr.rule_unwind_restore)
 register("EBR-LIST", rules_ebr.rule_list)
@@ -77,7 +78,7 @@ prop("C05", "other",
      ["CW-SITES", "CW-DESTRUCT-ONCE", "CW-INC-FAIL-ON-DESTRUCTED", "CW-TOKEN", "CW-SPLIT-INC-PROTECTED", "CW-DEFERRED-ONLY",
       "CW-ATTEMPT-RECHECK"],
      ["linearisation order of racing upgrades beyond these atomicity facts"],
-     witnesses=["TY-WEAK-NO-DEREF"], assumptions=TRUST)
+     witnesses=["TY-WEAK-NO-DEREF", "TY-SNAPSHOT-GUARD"], assumptions=TRUST)
 prop("C06", "other",
      ["REC-IMMEDIATE", "CW-CASCADE-DECISION", "CW-ZERO-DEFERS"],
      ["the numeric bound on epoch advances for every shape and epoch alignment (a runtime quantity)"], assumptions=TRUST)
@@ -184,11 +185,32 @@ for _p, _rules in (("C01", ["CW-STAMP-ON-DEC", "CW-STAMP-PINNED", "CW-STAMP-MODU
                             "CW-CASCADE-DECISION", "CW-UPGRADE-TRACE", "CW-WINDOW-FRESH"]),
                    ("C09", ["CW-WEAK-PROTOCOL", "CW-DESTRUCT-ORDER"])):
     registry.PROPS[_p]["rules"] += [x for x in _rules if x not in registry.PROPS[_p]["rules"]]
+# ... and the epoch side of it too: whatever un-protects a Snapshot (a re-pin under a live guard, a bag that expires
+# early) un-protects the Rc that `counted` makes of it.  C01 includes the rules of C02 (which include those of C13).
+_C01_FROM_C02 = True
 for _p, _rules in (("C01", ["CW-ALLOC-INIT", "CW-DEFER-WRAPPER"]), ("C02", ["EBR-DEFAULT-COLLECTOR", "CW-DEFER-WRAPPER"]),
                    ("C03", ["CW-ALLOC-INIT", "CW-DEFER-WRAPPER"]), ("C04", ["CW-ALLOC-INIT"]), ("C10", ["CW-ALLOC-INIT"]),
                    ("C13", ["WRAP-ATOMICS", "EBR-DEFAULT-COLLECTOR", "CW-DEFER-WRAPPER"]),
                    ("C14", ["WRAP-ATOMICS", "EBR-DEFAULT-COLLECTOR"]), ("C17", ["WRAP-ATOMICS"]), ("C18", ["WRAP-ATOMICS"]),
                    ("C20", ["EBR-DEFAULT-COLLECTOR"]),
+                   ("C04", ["EBR-PIN-PROGRESS"]), ("C15", ["EBR-PIN-PROGRESS"]),
+                   # "user tags are preserved exactly and truncated to the alignment bits" (C08/C09) is the bit-level round trip;
+                   # "the reference upgrade returns obeys C02" (C05) includes the signature that ties it to the guard
+                   ("C08", ["BIT-TAGGED"]), ("C09", ["BIT-TAGGED"]), ("C05", ["TY-SIG"]),
                    ("C06", ["MOD-AGING"]), ("C15", ["EBR-TUNABLES"]), ("C04", ["EBR-TUNABLES"]), ("C20", ["EBR-TUNABLES"]),
                    ("C13", ["EBR-INIT"]), ("C14", ["EBR-INIT"]), ("C16", ["EBR-INIT"]), ("C18", ["EBR-INIT"]), ("C20", ["EBR-INIT"])):
     registry.PROPS[_p]["rules"] += [x for x in _rules if x not in registry.PROPS[_p]["rules"]]
+
+# a participant that is finalized, or re-pinned, under a live guard is no longer seen by try_advance: the reactivate
+# sequences are part of "deferred work never runs while a critical section active at deferral is active" (C13)
+for _r in ("EBR-REACTIVATE", "EBR-FINALIZE-HANDOFF"):
+    if _r not in registry.PROPS["C13"]["rules"]:
+        registry.PROPS["C13"]["rules"].append(_r)
+# the dependencies once more, now that every list is complete
+for _p, _src in (("C02", "C13"), ("C03", "C13"), ("C04", "C15")):
+    registry.PROPS[_p]["rules"] += [x for x in registry.PROPS[_src]["rules"] if x not in registry.PROPS[_p]["rules"]]
+
+if _C01_FROM_C02:
+    registry.PROPS["C01"]["rules"] += [x for x in registry.PROPS["C02"]["rules"] if x not in registry.PROPS["C01"]["rules"]]
+    registry.PROPS["C01"]["witnesses"] = list(registry.PROPS["C01"].get("witnesses") or []) + [
+        w for w in (registry.PROPS["C02"].get("witnesses") or []) if w not in (registry.PROPS["C01"].get("witnesses") or [])]
